@@ -87,6 +87,11 @@ MAN = {
  ("C15", 151): ("other-check", "layer.Verify ignores the VerifyTOC error: ./check C01 reports it (2 violations)"),
  ("C16", 83): ("equivalent", "value returned together with ENOENT is ignored"),
  ("C18", 171): ("equivalent", "NewRequest already returns an empty header"),
+ ("C09", 312): ("config-default", "environment: overlayutils.NeedsUserXAttr is false in this sandbox (root, no userns), the userxattr branch never runs; TestVerifC07Service would report a wrong flavour where it does"),
+ ("C07", 23): ("config-default", "environment: NeedsUserXAttr is false here, so disabling the userxattr branch changes nothing; its negation IS reported (opaque-xattr-flavour)"),
+ ("C07", 15): ("config-default", "the harness passes its own RegistryHosts; the default built from the resolver config is C18's domain"),
+ ("C07", 31): ("not-in-property", "aggregation of the per-reader errors of getSources into the returned error"),
+ ("C12", 180): ("fault-path", "error of the metrics/umount bookkeeping after the layer was already released"),
  ("C20", 111): ("not-in-property", "base inode number of the root node"),
  ("C20", 92): ("not-in-property", "disable_verification ignored (stricter); C01's ladder"),
  ("C20", 118): ("other-check", "mounted layer not registered: ./check C01 reports it"),
